@@ -89,6 +89,8 @@ func impl(in hv.Val) hv.Val {
 
 var origins = []string{"http://a.example", "https://a.example", "http://b.example", "null", "http://a.example:8080",
 	"HTTP://A.EXAMPLE", "http://a.example ", "*", "%origin", "x"}
+var plainOrigins = []string{"http://a.example", "https://a.example", "http://b.example", "http://a.example:8080",
+	"HTTP://A.EXAMPLE", "http://a.example "}
 var methods = []string{"GET", "HEAD", "POST", "PUT", "DELETE", "CONNECT", "OPTIONS", "TRACE", "PATCH"}
 var hnames = []string{"X-A", "Content-Type", "Authorization", "X-Long-Header-Name", "x-b"}
 var varyTok = []string{"Accept-Encoding", "Origin", "origin", "ORIGIN", "*", "Accept", "User-Agent", "Originx", "xOrigin",
@@ -142,7 +144,7 @@ func gen(r *hv.Rng, i int, tier string) (string, hv.Val) {
 	case k < 9:
 		n := r.Range(1, 3)
 		for j := 0; j < n; j++ {
-			allow = append(allow, r.Pick(origins[:7]))
+			allow = append(allow, r.Pick(plainOrigins))
 		}
 		class = "list"
 	default: // possibly invalid combinations
@@ -175,25 +177,22 @@ func gen(r *hv.Rng, i int, tier string) (string, hv.Val) {
 			expose = append([]string{r.Pick([]string{"*", "*X"})}, expose...)
 		default:
 		}
-		class += "-odd"
+		class = "oddfields"
 	}
 	var maxage hv.Val = hv.None()
 	if r.Chance(1, 2) {
-		v := r.Pick([]string{"0", "-1", "600", "86400", "86401", "-2", "5"})
-		var n int
-		switch v {
-		case "0":
-			n = 0
-		case "-1":
-			n = -1
-		case "600":
-			n = 600
-		case "86400":
-			n = 86400
-		case "86401":
+		n := 0
+		switch r.Intn(14) {
+		case 0:
 			n = 86401
-		case "-2":
+		case 1:
 			n = -2
+		case 2, 3:
+			n = -1
+		case 4, 5:
+			n = 86400
+		case 6:
+			n = 0
 		default:
 			n = r.Range(1, 86400)
 		}
@@ -212,7 +211,7 @@ func gen(r *hv.Rng, i int, tier string) (string, hv.Val) {
 	var org []string
 	switch k := r.Intn(12); {
 	case k == 0:
-		class += "/no-origin"
+		class = "triv-no-origin"
 	case k == 1:
 		org = []string{""}
 		class += "/empty-origin"
